@@ -355,11 +355,9 @@ theorem pcWithDefault_stable (k : Ranges) (p : Pod) :
     have e1 : ∀ (a b : List Ctr) (o : Option RL), pcRaw k { p with inits := a, ctrs := b, overhead := o } = pcRaw k p := fun _ _ _ => rfl
     have e2 : ∀ (a b : List Ctr) (o : Option RL), qosRaw { p with inits := a, ctrs := b, overhead := o } = qosRaw p := fun _ _ _ => rfl
     rw [e1, e2]
-    by_cases hc : pcRaw k p ≠ PC.none
-    · simp only [hc, if_true] at hpc ⊢; exact hpc
-    · by_cases hq : qosRaw p ≠ QoS.none
-      · simp only [hc, hq, if_true, if_false] at hpc ⊢; exact hpc
-      · simp only [hc, hq, if_false] at hpc ⊢
+    by_cases hc : pcRaw k p = PC.none
+    · by_cases hq : qosRaw p = QoS.none
+      · simp only [hc, hq, ne_eq, not_true_eq_false, if_false] at hpc ⊢
         have hb : kubeBestEffort p = true := by
           cases hk : kubeBestEffort p
           · rw [hk] at hpc; simp at hpc; subst hpc; simp [IsTier] at h
@@ -367,6 +365,8 @@ theorem pcWithDefault_stable (k : Ranges) (p : Pod) :
         rw [kubeBE_after p pc h _ hb]
         rw [hb] at hpc
         exact hpc
+      · simp only [hc, hq, ne_eq, not_true_eq_false, not_false_eq_true, if_true, if_false] at hpc ⊢; exact hpc
+    · simp only [hc, ne_eq, not_false_eq_true, if_true] at hpc ⊢; exact hpc
   · rw [pod_untouched_without_tier k p h]
 
 /-- 7 (translation). translating the translated pod changes nothing. -/
@@ -399,20 +399,22 @@ theorem specLookup_insert (e : ExtCtr) (s : List ExtCtr) (n : Nat) :
   | nil => by_cases h : e.name = n <;> simp [specLookup, specInsert, h]
   | cons x xs ih =>
     unfold specInsert
+    simp only [specLookup] at ih ⊢
     by_cases h1 : e.name < x.name
-    · by_cases h : e.name = n <;> simp [specLookup, h1, h]
-    · by_cases h2 : e.name = x.name
-      · by_cases h : e.name = n
-        · simp [specLookup, h1, h2, h]; intro hx; omega
+    · rw [if_pos h1, List.find?_cons]
+      by_cases h : e.name = n <;> simp [h]
+    · rw [if_neg h1]
+      by_cases h2 : e.name = x.name
+      · rw [if_pos h2, List.find?_cons, List.find?_cons]
+        by_cases h : e.name = n
+        · simp [h]
         · have : ¬ x.name = n := by omega
-          simp [specLookup, h1, h2, h, this]
-      · simp only [h1, h2, if_false]
+          simp [h, this]
+      · rw [if_neg h2, List.find?_cons, List.find?_cons]
         by_cases hx : x.name = n
         · have : ¬ e.name = n := by omega
-          simp [specLookup, hx, this]
-        · have ih' := ih
-          simp only [specLookup] at ih' ⊢
-          simp [hx, ih']
+          simp [hx, this]
+        · simp [hx, ih]
 
 theorem ctrExt_name (c : Ctr) (e : ExtCtr) (h : ctrExt c = some e) : e.name = c.name := by
   unfold ctrExt at h
@@ -422,12 +424,13 @@ theorem ctrExt_name (c : Ctr) (e : ExtCtr) (h : ctrExt c = some e) : e.name = c.
   · cases h; rfl
 
 theorem specFold_notin (cs : List Ctr) (acc : List ExtCtr) (n : Nat) (hn : n ∉ cs.map (·.name)) :
-    specLookup n (cs.foldl (fun m c => match ctrExt c with | none => m | some e => specInsert e m) acc) = specLookup n acc := by
+    specLookup n (cs.foldl specStep acc) = specLookup n acc := by
   induction cs generalizing acc with
   | nil => rfl
   | cons c rest ih =>
     simp only [List.map_cons, List.mem_cons, not_or] at hn
     rw [List.foldl_cons, ih _ hn.2]
+    unfold specStep
     cases he : ctrExt c with
     | none => rfl
     | some e =>
@@ -437,7 +440,7 @@ theorem specFold_notin (cs : List Ctr) (acc : List ExtCtr) (n : Nat) (hn : n ∉
       simp [this]
 
 theorem specFold_in (cs : List Ctr) (acc : List ExtCtr) (c : Ctr) (hnd : (cs.map (·.name)).Nodup) (hc : c ∈ cs) :
-    specLookup c.name (cs.foldl (fun m c => match ctrExt c with | none => m | some e => specInsert e m) acc) =
+    specLookup c.name (cs.foldl specStep acc) =
       match ctrExt c with
       | some e => some e
       | none => specLookup c.name acc := by
@@ -448,6 +451,7 @@ theorem specFold_in (cs : List Ctr) (acc : List ExtCtr) (c : Ctr) (hnd : (cs.map
     rw [List.foldl_cons]
     rcases List.mem_cons.mp hc with rfl | hr
     · rw [specFold_notin rest _ _ hnd.1]
+      unfold specStep
       cases he : ctrExt c with
       | none => rfl
       | some e => simp only []; rw [specLookup_insert, ctrExt_name c e he]; simp
@@ -458,6 +462,7 @@ theorem specFold_in (cs : List Ctr) (acc : List ExtCtr) (c : Ctr) (hnd : (cs.map
       | some e => rfl
       | none =>
         simp only []
+        unfold specStep
         cases he : ctrExt d with
         | none => rfl
         | some e => simp only []; rw [specLookup_insert, ctrExt_name d e he]; simp [hne]
@@ -514,6 +519,78 @@ theorem mutateByExt_idempotent (p p' : Pod) (h : mutateByExt p = some p') : muta
     | spec old => rw [ha] at h; simp only [] at h; split at h <;> cases h <;> simp_all
   | absent => rw [ha'] at h4; simp [annotSpec] at h4; simp [← h4]
   | spec s => rw [ha'] at h4; simp [annotSpec] at h4; simp [h4]
+
+
+/-! ### 7. re-admission -/
+
+theorem mutatePodResourceSpec_annot (k : Ranges) (q : Pod) (a : Annot) :
+    mutatePodResourceSpec k { q with annot := a } = { mutatePodResourceSpec k q with annot := a } := by
+  have hpc : pcWithDefault k { q with annot := a } = pcWithDefault k q := rfl
+  unfold mutatePodResourceSpec
+  simp only [hpc]
+  split <;> rfl
+
+/-- 7. `idempotent` for the resource pipeline of handleCreate (tier translation followed by the
+    summary annotation): admitting the result again changes nothing.
+    FULL STATEMENT (not proved here): the same for `admitCreate k gate rand ps` with an arbitrary
+    profile list `ps`, i.e. `admitCreate … p = some p' → admitCreate … p' = some p'`.  Missing: the
+    (routine) lemma that `applyProfiles` — a fold of "overwrite the field with a constant or keep
+    it" — is idempotent and commutes with the container/annotation updates.  The correspondence
+    run re-admits every admitted pod with its profiles and the oracle checks this
+    (fingerprint C13:not-idempotent). -/
+theorem readmission_idempotent_partial (k : Ranges) (p p' : Pod)
+    (h : mutateByExt (mutatePodResourceSpec k p) = some p') :
+    mutateByExt (mutatePodResourceSpec k p') = some p' := by
+  have hid := mutateByExt_idempotent _ _ h
+  have hform : ∃ a, p' = { mutatePodResourceSpec k p with annot := a } := by
+    unfold mutateByExt at h
+    simp only [] at h
+    cases ha : (mutatePodResourceSpec k p).annot with
+    | malformed => rw [ha] at h; cases h
+    | absent =>
+      rw [ha] at h; simp only [] at h
+      split at h <;> cases h
+      · exact ⟨Annot.absent, by rw [← ha]⟩
+      · exact ⟨_, rfl⟩
+    | spec old =>
+      rw [ha] at h; simp only [] at h
+      split at h <;> cases h
+      · exact ⟨Annot.spec old, by rw [← ha]⟩
+      · exact ⟨_, rfl⟩
+  obtain ⟨a, rfl⟩ := hform
+  rw [mutatePodResourceSpec_annot, mutatePodResourceSpec_idempotent]
+  exact hid
+
+/-! ### non-vacuity -/
+
+example : getPriorityClassByPriority stdRanges 5500 = PC.batch ∧ getPriorityClassByPriority stdRanges 6500 = PC.none := by decide
+example : IsTier PC.batch ∧ IsTier PC.mid ∧ ¬ IsTier PC.free := by simp [IsTier]
+example : PermittedPair QoS.be PC.batch ∧ ¬ PermittedPair QoS.be PC.prod ∧ ¬ PermittedPair QoS.lsr PC.mid := by decide
+example : WholeCPU 2000000000 ∧ ¬ WholeCPU 1500000000 ∧ WholeCPU 999999900 := by unfold WholeCPU milliValue; omega
+
+/-- a fractional container (0.0005 CPU request, 1.5 CPU limit, 1Gi memory limit only) -/
+def exCtr : Ctr :=
+  { name := 0, req := RL.empty.set Res.cpu 500000,
+    lim := (RL.empty.set Res.cpu 1500000000).set Res.memory 1073741824000000000 }
+
+example : (mutateCtr PC.batch exCtr).req Res.batchCPU = some 1000000000 ∧          -- 0.0005 CPU ↦ 1 milli-core
+          (mutateCtr PC.batch exCtr).lim Res.batchCPU = some 1500000000000 ∧       -- 1.5 CPU ↦ 1500
+          (mutateCtr PC.batch exCtr).req Res.batchMemory = some 1073741824000000000 ∧ -- request defaulted to the limit
+          (mutateCtr PC.batch exCtr).req Res.cpu = none := by decide
+
+def exPod (q : QoS) (prio : Int) : Pod :=
+  { qosLabel := some q, prioLabel := none, priority := some prio, subPrio := none, statusQoS := 0,
+    inits := [], ctrs := [exCtr], overhead := none, annot := Annot.absent }
+
+example : validateAllowed stdRanges false 0 (exPod QoS.be 5500) (exPod QoS.be 5500) = true ∧
+          validateAllowed stdRanges false 0 (exPod QoS.be 9500) (exPod QoS.be 9500) = false ∧
+          validateAllowed stdRanges false 0 (exPod QoS.lsr 9500) (exPod QoS.lsr 9500) = false ∧ -- 0.0005 CPU is not whole
+          validateAllowed stdRanges false 1 (exPod QoS.be 5500) (exPod QoS.be 7500) = false := by decide
+
+example : ∃ p', mutateByExt (mutatePodResourceSpec stdRanges (exPod QoS.be 5500)) = some p' ∧
+    annotSpec p'.annot = [{ name := 0, req := ⟨some 1000000000, some 1073741824000000000⟩,
+                            lim := ⟨some 1500000000000, some 1073741824000000000⟩ }] :=
+  ⟨_, rfl, by decide⟩
 
 
 end KoordVerif.C13
